@@ -641,7 +641,7 @@ example : HostSafe (normHostOf id (hostParsed "fr-fr.facebook.com")) ∧ PortOk 
 example : lower "HTTP://User@A.com/%C3%89?K=V#F".toList = lower "http://user@a.COM/%c3%89?k=v#f".toList := by
   decide
 
-/-- unparseable input: the lower-cased argument comes back (FX-C07-FPTOTAL) -/
+/-- unparseable input: the lower-cased argument comes back (FX-C07-c806a8b) -/
 example : (fingerprintUrl tripleEnv false "HTTP://[::1".toList).toOption = some "http://[::1".toList := by
   decide +kernel
 
